@@ -255,6 +255,28 @@ func (c13) Generate(r *engine.Rand, index int, tier string) *engine.Scenario {
 		sortEvents(sc.Events)
 		return sc
 	}
+	if index%12 == 5 {
+		// power cycles shorter than a line: the LCD is switched on for a few dozen cycles (around the
+		// 60th, where the first horizontal blank of the shortened line begins), off, and on again, several
+		// times over: every switch-on starts a frame of its own with one line two cycles short
+		sc.Class = "short-power-cycles"
+		at := uint64(r.Range(1, 400))
+		sc.Events = append(sc.Events, engine.Event{At: at, K: "bus_w", A: 0xff40, V: r.Byte() &^ 0x80})
+		for i, n := 0, r.Range(2, 8); i < n; i++ {
+			at += uint64(r.Range(1, 300))
+			sc.Events = append(sc.Events, engine.Event{At: at, K: "bus_w", A: 0xff40, V: r.Byte() | 0x80})
+			on := uint64(r.Range(1, 130))
+			if r.Chance(2, 3) {
+				on = uint64(r.Range(56, 66))
+			}
+			at += on
+			sc.Events = append(sc.Events, engine.Event{At: at, K: "bus_w", A: 0xff40, V: r.Byte() &^ 0x80})
+		}
+		at += uint64(r.Range(1, 300))
+		sc.Events = append(sc.Events, engine.Event{At: at, K: "bus_w", A: 0xff40, V: r.Byte() | 0x80})
+		sc.Cycles = at + uint64(r.Range(200, 18000))
+		return sc
+	}
 	if index%12 == 1 {
 		// stores to the read-only LY register in the first cycles of the lines at which something begins
 		// (frame start, first and last visible line, vertical blank, last line), LCD on throughout
